@@ -1734,3 +1734,62 @@ CONTROLS['C07'] += [
          "            consumer.update()\n    else:\n        created_new_consumer = True\n    return consumer, created_new_consumer\n")]),
 ]
 CONTROLS['C05'] += [reuse('C10', 'c10-drop-incr-delete-inventory', 'c05-inventory-change-no-cas', 'R5.6')]
+
+OU = O + 'usage.py'
+OI = O + 'inventory.py'
+HI2 = H + 'inventory.py'
+CONTROLS['C11'] = [
+    M('c11-insert-swaps-unit-fields', ORP,
+      "            min_unit=inv_record.min_unit,\n            max_unit=inv_record.max_unit,\n            step_size=inv_record.step_size,\n            allocation_ratio=inv_record.allocation_ratio)\n        ctx.session.execute(ins_stmt)",
+      "            min_unit=inv_record.max_unit,\n            max_unit=inv_record.min_unit,\n            step_size=inv_record.step_size,\n            allocation_ratio=inv_record.allocation_ratio)\n        ctx.session.execute(ins_stmt)",
+      'R11.1'),
+    M('c11-update-drops-reserved-source', ORP,
+      "            total=inv_record.total,\n            reserved=inv_record.reserved,\n            min_unit=inv_record.min_unit,\n            max_unit=inv_record.max_unit,\n            step_size=inv_record.step_size,\n            allocation_ratio=inv_record.allocation_ratio)\n        res = ctx.session.execute(upd_stmt)",
+      "            total=inv_record.total,\n            reserved=inv_record.total,\n            min_unit=inv_record.min_unit,\n            max_unit=inv_record.max_unit,\n            step_size=inv_record.step_size,\n            allocation_ratio=inv_record.allocation_ratio)\n        res = ctx.session.execute(upd_stmt)",
+      'R11.1'),
+    M('c11-label-carries-other-column', OA,
+      '        consumer.c.generation.label("consumer_generation"),\n        consumer.c.consumer_type_id,',
+      '        consumer.c.id.label("consumer_generation"),\n        consumer.c.consumer_type_id,', 'R11.2'),
+    M('c11-label-of-other-table', OA,
+      '        projects.c.external_id.label("project_external_id"),',
+      '        users.c.external_id.label("project_external_id"),', 'R11.2'),
+    M('c11-object-takes-other-entity-field', OA,
+      "        generation=db_first['consumer_generation'],",
+      "        generation=db_first['resource_provider_generation'],", 'R11.3'),
+    M('c11-provider-generation-from-consumer', OA,
+      "                generation=rec['resource_provider_generation']),",
+      "                generation=rec['consumer_generation']),", 'R11.3'),
+    M('c11-serialiser-user-is-project', HA,
+      "        result['user_id'] = user_id\n", "        result['user_id'] = project_id\n", 'R11.4'),
+    M('c11-serialiser-provider-generation-of-consumer', HA,
+      "        generation = allocation.resource_provider.generation\n",
+      "        generation = allocation.consumer.generation\n", 'R11.4'),
+    M('c11-output-fields-drop-reserved', HI2,
+      "OUTPUT_INVENTORY_FIELDS = [\n    'total',\n    'reserved',\n", "OUTPUT_INVENTORY_FIELDS = [\n    'total',\n", 'R11.4'),
+    M('c11-default-missing', HI2,
+      "    'reserved': 0,\n    'min_unit': 1,\n", "    'reserved': 0,\n", 'R11.4'),
+    M('c11-inventory-object-swaps-fields', OI,
+      "        self.min_unit = min_unit\n        self.max_unit = max_unit\n",
+      "        self.min_unit = max_unit\n        self.max_unit = min_unit\n", 'R11.4'),
+    M('c11-provider-parent-is-root', HRP,
+      "        data['parent_provider_uuid'] = resource_provider.parent_provider_uuid\n",
+      "        data['parent_provider_uuid'] = resource_provider.root_provider_uuid\n", 'R11.4'),
+    M('c11-usage-takes-class-column', OU,
+      "    result = [dict(resource_class=context.rc_cache.string_from_id(item[0]),\n                   usage=item[1])\n              for item in query.all()]\n    return result\n\n\n@db_api.placement_context_manager.reader\ndef _get_all_by_project_user",
+      "    result = [dict(resource_class=context.rc_cache.string_from_id(item[0]),\n                   usage=item[0])\n              for item in query.all()]\n    return result\n\n\n@db_api.placement_context_manager.reader\ndef _get_all_by_project_user",
+      'R11.5'),
+    M('c11-usage-joins-on-provider-only', OU,
+      "                                 models.Inventory.resource_class_id ==\n                                 models.Allocation.resource_class_id))\n             .filter(models.ResourceProvider.uuid == rp_uuid)",
+      "                                 models.Inventory.resource_class_id ==\n                                 models.Inventory.resource_class_id))\n             .filter(models.ResourceProvider.uuid == rp_uuid)",
+      'R11.5'),
+    M('c11-delete-trait-answers-200', H + 'trait.py',
+      "        raise webob.exc.HTTPConflict(ex.format_message())\n\n    req.response.status = 204\n",
+      "        raise webob.exc.HTTPConflict(ex.format_message())\n\n    req.response.status = 200\n", 'R11.6'),
+    M('c11-create-class-answers-200', H + 'resource_class.py',
+      "    req.response.status = 201\n", "    req.response.status = 200\n", 'R11.6'),
+    B('c11-benign-serialiser-rename', HA,
+      "        generation = allocation.resource_provider.generation\n        allocation_data[key]['generation'] = generation\n",
+      "        rp_gen = allocation.resource_provider.generation\n        allocation_data[key]['generation'] = rp_gen\n"),
+    B('c11-benign-status-via-local', H + 'resource_class.py',
+      "    req.response.status = 201\n", "    created = 201\n    req.response.status = created\n"),
+]
